@@ -183,7 +183,9 @@ def run(chk):
     chk.require(hits.get('exit:' + m, 0) > 0, f'vacuous: manager {m} never left')
   for k in ('exit:ExitNormal', 'exit:ExitByException', 'propagate', 'exit:ctxprop', 'dont_care:wrap',
             'exit_outcome:raised', 'exit_outcome:suppressed', 'exit_outcome:propagated', 'exit_callback_run',
-            'enter_refused:dyn', 'enter_refused:detour'):
+            'enter_refused:dyn', 'enter_refused:detour', 'end_early', 'inner_fault_raised:detour',
+            'inner_fault_raised:dyn', 'inner_fault_raised:viewopt', 'handle_checked:perm', 'handle_checked:detour',
+            'handle_checked:viewopt', 'handle_checked:ctx', 'handle_checked:timeit'):
     chk.require(hits.get(k, 0) > 0, f'vacuous: {k} never happened')
   for m in ('sealed', 'perm', 'ctx', 'detour', 'strfmt', 'viewopt', 'codectx', 'dyn', 'ldtypes', 'timeit', 'notify'):
     chk.require(hits.get('nested_same_mgr:' + m, 0) > 0, f'vacuous: {m} never nested directly in itself')
